@@ -42,7 +42,7 @@ theorem IdsOk.cons {ids : List Node} {s : PState} {x : Node} (h : ids = [] ∨ I
     · exact h.2 y hy
 
 section
-variable (T : TablesOk) {c : Ctx} (hl : LitOk c)
+variable (T : LexOk) {c : Ctx} (hl : LitOk c)
 include T
 
 theorem pathItem_spec {b : Nat} {s0 : PState} (h : InvB b c s0) (hb : b ≤ 3) :
@@ -203,13 +203,49 @@ theorem ipAddress_spec {s0 : PState} (h : InvB 2 c s0) :
   · exact decodeLit_spec hl _ hi hsp hm hn
   · pfail hi, hsp
 
+omit T hl in
+/-- the slices of `simple_literal` cannot panic on a token of the lexer -/
+theorem litSlices_ok {k : TokKind} {t : List Char} (h : TextOk k t) : litSlices k t = .ok () := by
+  have quote : ∀ (q : Char) (m : List Char), sz q = 1 →
+      (match usub (blen (q :: (m ++ [q]))) 1 with
+        | .panic => (Res.panic : Res Unit)
+        | .ok e => match slice (q :: (m ++ [q])) 1 e with
+          | .ok _ => .ok ()
+          | .panic => .panic) = .ok () := by
+    intro q m hq
+    have hb : blen (q :: (m ++ [q])) = 1 + blen m + 1 := by
+      simp only [blen, blen_append, hq]; omega
+    rw [hb, usub_ok (by omega)]
+    have h1 : splitAt (q :: (m ++ [q])) 1 = .ok ([q], m ++ [q]) := by
+      have := splitAt_append [q] (m ++ [q])
+      simpa [blen, hq] using this
+    have h2 : splitAt (m ++ [q]) (blen m) = .ok (m, [q]) := splitAt_append m [q]
+    have e : 1 + blen m + 1 - 1 - 1 = blen m := by omega
+    simp only [slice, h1, usub_ok (show 1 ≤ 1 + blen m + 1 - 1 by omega), sliceTo, e, h2]
+  have pre2 : ∀ (a b : Char) (m : List Char), sz a = 1 → sz b = 1 →
+      (match sliceFrom (a :: b :: m) 2 with
+        | .ok _ => (Res.ok () : Res Unit)
+        | .panic => .panic) = .ok () := by
+    intro a b m ha hb
+    have : splitAt (a :: b :: m) 2 = .ok ([a, b], m) := by
+      have := splitAt_append [a, b] m
+      simpa [blen, ha, hb] using this
+    simp only [sliceFrom, this]
+  cases k <;> simp only [litSlices]
+  · obtain ⟨m, rfl⟩ := h; exact quote _ m (by decide)
+  · obtain ⟨m, rfl⟩ := h; exact quote _ m (by decide)
+  · obtain ⟨m, rfl⟩ := h; exact pre2 _ _ m (by decide) (by decide)
+  · obtain ⟨m, rfl⟩ := h; exact pre2 _ _ m (by decide) (by decide)
+
 theorem simpleLiteral_spec {s0 : PState} (h : InvB 2 c s0) :
     SpecR c False (Post c s0 1 Vid) (simpleLiteral c s0) := by
   unfold simpleLiteral
   pb pnext_spec T h (by omega)
-  intro r s ⟨hi, hm, hn, hsp, _⟩
+  intro r s ⟨hi, hm, hn, hsp, _, htext⟩
   split
-  · split
+  · rw [litSlices_ok htext]
+    dsimp only
+    split
     · exact addNode_ok _ _ hi hsp hm hn
     · exact decodeLit_spec hl _ hi hsp hm hn
   · pfail hi, hsp
